@@ -245,6 +245,8 @@ pub struct Explorer<'a> {
     /// keep the representative histories of the last level too (needed when per-state passes
     /// are to run on every state up to the full depth)
     pub store_last: bool,
+    /// `--part k/n`: this process evaluates only every n-th frontier item of the last level
+    pub part: Option<(usize, usize)>,
 }
 
 impl<'a> Explorer<'a> {
@@ -379,6 +381,11 @@ impl<'a> Explorer<'a> {
                             if i % 64 == 0 && self.budget.exceeded() {
                                 stop.store(true, Ordering::Relaxed);
                                 break;
+                            }
+                            if let (true, Some((k, n))) = (last, self.part) {
+                                if i % n != k {
+                                    continue;
+                                }
                             }
                             let hist = &fr[i];
                             let p = replay(self.prof, hist);
